@@ -80,6 +80,15 @@ func NewBuffer(commit func(b *Buffer) error, uuid string) *Buffer {
 	}
 }
 
+// setCheckStartOffset sets the offset that the next Write will be checked against.
+// It is called when an upload is resumed, possibly while another
+// goroutine is using the buffer.
+func (b *Buffer) setCheckStartOffset(offset int64) {
+	b.mu.Lock()
+	defer b.mu.Unlock()
+	b.checkStartOffset = offset
+}
+
 func (b *Buffer) Cancel() error {
 	b.mu.Lock()
 	defer b.mu.Unlock()
@@ -148,7 +157,8 @@ func (b *Buffer) ID() string {
 // Commit implements [ociregistry.BlobWriter.Commit] by checking
 // that everything looks OK and calling the commit function if so.
 func (b *Buffer) Commit(dig ociregistry.Digest) (_ ociregistry.Descriptor, err error) {
-	if err := b.checkCommit(dig); err != nil {
+	desc, err := b.checkCommit(dig)
+	if err != nil {
 		return ociregistry.Descriptor{}, err
 	}
 	// Note: we're careful to call this function outside of the mutex so
@@ -160,18 +170,14 @@ func (b *Buffer) Commit(dig ociregistry.Digest) (_ ociregistry.Descriptor, err e
 		b.commitErr = err
 		return ociregistry.Descriptor{}, err
 	}
-	return ociregistry.Descriptor{
-		MediaType: "application/octet-stream",
-		Size:      int64(len(b.buf)),
-		Digest:    dig,
-	}, nil
+	return desc, nil
 }
 
-func (b *Buffer) checkCommit(dig ociregistry.Digest) (err error) {
+func (b *Buffer) checkCommit(dig ociregistry.Digest) (_ ociregistry.Descriptor, err error) {
 	b.mu.Lock()
 	defer b.mu.Unlock()
 	if b.commitErr != nil {
-		return b.commitErr
+		return ociregistry.Descriptor{}, b.commitErr
 	}
 	defer func() {
 		if err != nil {
@@ -179,7 +185,7 @@ func (b *Buffer) checkCommit(dig ociregistry.Digest) (err error) {
 		}
 	}()
 	if digest.FromBytes(b.buf) != dig {
-		return fmt.Errorf("digest mismatch (sha256(%q) != %s): %w", b.buf, dig, ociregistry.ErrDigestInvalid)
+		return ociregistry.Descriptor{}, fmt.Errorf("digest mismatch (sha256(%q) != %s): %w", b.buf, dig, ociregistry.ErrDigestInvalid)
 	}
 	b.desc = ociregistry.Descriptor{
 		MediaType: "application/octet-stream",
@@ -187,5 +193,5 @@ func (b *Buffer) checkCommit(dig ociregistry.Digest) (err error) {
 		Size:      int64(len(b.buf)),
 	}
 	b.committed = true
-	return nil
+	return b.desc, nil
 }
